@@ -233,7 +233,10 @@ class URI(with_metaclass(URIType)):
 			raise InvalidURI(_(u'Invalid scheme: must only contain alphanumeric letters or plus, dash, dot.'))
 
 		if query_string:
-			query_string = QueryString.encode(QueryString.decode(query_string, self.encoding), self.encoding)
+			try:
+				query_string = QueryString.encode(QueryString.decode(query_string, self.encoding), self.encoding)
+			except UnicodeDecodeError:
+				raise InvalidURI(_(u'Invalid query string: percent-encoded octets must be valid %s.'), self.encoding)
 
 		self.tuple = (
 			scheme,
